@@ -28,7 +28,8 @@ LEVEL_TEXT = ("Lean 4 theorems, for all networks (value and derivative oracles),
               "terms, hence independent of the number of time points when nothing depends on t and unchanged when the "
               "time set is repeated.  The model is tied to /repo on every run by exact differential execution; "
               "Holds.C04 (stated from the definition of the outward normal, not from the code's tables) is evaluated on "
-              "the implementation's own value and on three metamorphic re-evaluations of the implementation.")
+              "the implementation's own value and on three metamorphic re-evaluations of the implementation."
+              "  Holds.C04 itself is proved of the model's boundary value for every specification, table and batch (holdsC04_model, holdsC04_model_spinn_*).")
 LEVEL_NOTE = ("Trusted: Lean kernel + {propext, Classical.choice, Quot.sound}; JAX AD is an oracle (the table of first "
               "derivatives is computed by the harness with exact polynomials); the tie of the hand-written model to the "
               "code is differential; a separable network (SPINN) is evaluated on the tensor grid of the coordinate "
